@@ -56,6 +56,26 @@ pub mod units;
 #[doc(hidden)]
 pub use self::eval::verif_hooks as verif;
 
+/// Crash point for external verification tooling: the process is aborted at
+/// the n-th time the named point is passed when the environment variable
+/// `ANYTHING_VERIF_CRASH_AFTER` is set to `<name>#<n>`.
+#[cfg(anything_verif)]
+pub(crate) fn verif_crash_point(name: &str) {
+    use std::sync::atomic::{AtomicUsize, Ordering};
+    static SEEN: AtomicUsize = AtomicUsize::new(0);
+
+    if let Ok(spec) = std::env::var("ANYTHING_VERIF_CRASH_AFTER") {
+        let (want, n) = match spec.split_once('#') {
+            Some((want, n)) => (want.to_owned(), n.parse::<usize>().unwrap_or(1)),
+            None => (spec, 1),
+        };
+
+        if want == name && SEEN.fetch_add(1, Ordering::SeqCst) + 1 == n {
+            std::process::abort();
+        }
+    }
+}
+
 pub use self::compound::Compound;
 pub use self::db::{Constant, Db, Source};
 pub use self::error::Error;
